@@ -932,3 +932,110 @@ func ruleR186(c *Ctx) {
 		c.Violation(key, fd.Pos(), "the XML name validator accepts characters that are not allowed in an XML name (%s): a map key containing them is written as an attribute name and the document is not well formed", msg)
 	}
 }
+
+// ---------------------------------------------------------------------------
+// R18.7 attribute form or element form is decided per map, not per entry.
+//
+// The XML writer accepts attributes of an element only until the first child
+// of that element is written; a later Attr is dropped (it logs "tag is not
+// open"). The traversal hands the entries of a map to the map exporter one
+// after the other, so an exporter that chooses per entry between an attribute
+// and a child element loses every simple entry that follows a structured one.
+// In the Add method of a map exporter every Attr call therefore has to be
+// guarded by a boolean field of the exporter (fixed when the exporter is
+// created for the map), and its guards must not look at the value of the
+// entry.
+
+func ruleR187(c *Ctx) {
+	xa := c.xmlAnchors()
+	if len(xa.missing) > 0 {
+		c.Undecided(strings.Join(xa.missing, ","), token.NoPos, "anchors not found")
+		return
+	}
+	info := xa.ep.TypesInfo
+	n := 0
+	for _, f := range xa.ep.Syntax {
+		for _, d := range f.Decls {
+			fd, ok := d.(*ast.FuncDecl)
+			if !ok || fd.Body == nil || fd.Recv == nil || fd.Name.Name != "Add" || len(fd.Recv.List[0].Names) != 1 {
+				continue
+			}
+			var params []types.Object
+			for _, fl := range fd.Type.Params.List {
+				for _, nm := range fl.Names {
+					params = append(params, info.Defs[nm])
+				}
+			}
+			if len(params) != 2 || !isNamed(params[1].Type(), modPath+"/value", "Value") {
+				continue
+			}
+			recvObj := info.Defs[fd.Recv.List[0].Names[0]]
+			valObj := params[1]
+			k := 0
+			ast.Inspect(fd.Body, func(x ast.Node) bool {
+				call, ok := x.(*ast.CallExpr)
+				if !ok || !isCallTo(info, call, xa.attr) {
+					return true
+				}
+				// an attribute of an element that was opened in the same expression (w.Open("entry").Attr("key", key), possibly
+				// after further Attr calls) belongs to that child, not to the element of the map
+				chained := false
+				for cur := ast.Unparen(call.Fun); ; {
+					sel, ok := cur.(*ast.SelectorExpr)
+					if !ok {
+						break
+					}
+					rc, ok := ast.Unparen(sel.X).(*ast.CallExpr)
+					if !ok {
+						break
+					}
+					if isCallTo(info, rc, xa.open) {
+						chained = true
+						break
+					}
+					if !isCallTo(info, rc, xa.attr) {
+						break
+					}
+					cur = ast.Unparen(rc.Fun)
+				}
+				if chained {
+					return true
+				}
+				n++
+				k++
+				key := fmt.Sprintf("%s#Attr[%d]", declName(xa.ep, fd), k)
+				perMap, perEntry := false, ""
+				for _, gd := range c.GuardsDeep(call) {
+					if gd.Synth {
+						continue
+					}
+					if sel, ok := ast.Unparen(gd.Cond).(*ast.SelectorExpr); ok && gd.Val {
+						if id, ok := ast.Unparen(sel.X).(*ast.Ident); ok && info.ObjectOf(id) == recvObj {
+							if b, ok := info.TypeOf(sel).Underlying().(*types.Basic); ok && b.Kind() == types.Bool {
+								perMap = true
+							}
+						}
+					}
+					if containsNode(gd.Cond, func(y ast.Node) bool {
+						id, ok := y.(*ast.Ident)
+						return ok && info.ObjectOf(id) == valObj
+					}) {
+						perEntry = nodeStr(c.Fset, gd.Cond)
+					}
+				}
+				switch {
+				case perEntry != "":
+					c.Violation(key, call.Pos(), "whether an entry is written as an attribute depends on the value of that entry (%s): entries arrive one after the other, and the XML writer drops an attribute that follows a child element, so every simple entry behind a structured one disappears from the document", perEntry)
+				case !perMap:
+					c.Violation(key, call.Pos(), "the attribute form is not guarded by a per-map decision (a boolean field of the exporter that is fixed when the exporter is created for the map): a map with mixed entries gets attributes after child elements, which the XML writer drops")
+				default:
+					c.OK(key, call.Pos(), "the attribute form is chosen per map (a boolean field of the exporter), not per entry")
+				}
+				return true
+			})
+		}
+	}
+	if n == 0 {
+		c.Undecided("value/export#map-exporter-attributes", token.NoPos, "no Attr call in an Add method of a map exporter found")
+	}
+}
